@@ -11,7 +11,13 @@ right operand.  Harness-only `cfg` (slots, frozen, api of base/subclass,
 attr.ib vs attrs.field, decorator alias (attr.attrs, attr.dataclass, attrs.mutable, attrs.frozen...), annotated
 fields, decorator object reused after another class, kind of foreign operand, whether an attrs base exists
 at all) is ignored by the model:
-that the verdict is the same for every `cfg` is part of what is checked.
+that the verdict is the same for every `cfg` is part of what is checked.  Harness-only `hist` gives the operands an
+earlier life: they were built with other values (other scripts), compared in every way and sorted, and then
+brought to the case's values -- by changing what the key functions return for the same raw objects (in-place
+mutation seen through a key), by rebinding fields behind the instance (object.__setattr__), or through
+attr.assoc / attr.evolve / copy.copy of the already-compared instance.  The model is a function of the current
+values only, so every comparison must equal the tuple comparison of the values current at that time; and the
+comparisons must leave nothing behind on the instances (`residue`).
 
 Observed: the class-level call's error kind, the fields whose attr.ib() raised ValueError, where each of the
 four methods of C comes from (attrs-generated in C / user's / inherited attrs-generated / object's), the
@@ -19,8 +25,10 @@ results of `C.__lt__(x, y)`... with the trace of value comparisons they perform,
 """
 from __future__ import annotations
 
+import copy
 import itertools
 import operator
+import warnings
 
 import attr
 import attrs
@@ -36,7 +44,9 @@ RULE = ("cases = class-level (api x cmp x eq x order x auto_detect x own orderin
         "tuple positions (identical/equal/truthy-equal/unequal/falsy-unequal/raising per position x operator outcome) exhaustive "
         "for <=2 fields quick / <=3 thorough over 7 key shapes, {0,1,2}^k all ordered pairs (k<=2 quick, <=3 thorough) with key "
         "functions and participation patterns, subset partial order and NaN, operand kinds x method provenance, random fill "
-        "(<=5 fields) with a malformed stream (12%); field names permuted; non-trivial = class built, ordering generated, and "
+        "(<=5 fields) with a malformed stream (12%), histories (block: kind in rekey/rebind/assoc/evolve/copy x who x key shape x "
+        "frozen explicit/inherited x slots, and 30% of the random block: earlier values compared and sorted, then changed); "
+        "field names permuted; non-trivial = class built, ordering generated, and "
         "(other-class operand or at least one value comparison performed); distinct = distinct JSON case")
 ASSUMPTIONS = [
     "the values' reflected comparisons agree (yv > xv is xv < yv, yv == xv is xv == yv), as Python's data model asks: y-side scripted values answer with the mirror of the script; the trace records which value was compared with == / an ordering operator, not by which side",
@@ -213,8 +223,8 @@ def _bg_kwargs(cfg, which):
     s = cfg.get(which)
     if s is not None:
         kw["slots"] = s
-    if cfg.get("frozen"):
-        kw["frozen"] = True
+    if cfg.get("frozen") or (which == "base_slots" and cfg.get("frozen_base")):
+        kw["frozen"] = True       # frozen_base: only the base is frozen, C inherits the frozen-ness
     return kw
 
 
@@ -253,8 +263,8 @@ _CLASS_CACHE: dict = {}
 
 def _nobase(case):
     cfg = case.get("cfg", {})
-    return bool(cfg.get("nobase")) and not case["baseOrdered"] and case["rhs"] != "super" and \
-        not any(f["inBase"] for f in case["fields"])
+    return bool(cfg.get("nobase")) and not cfg.get("frozen_base") and not case["baseOrdered"] and \
+        case["rhs"] != "super" and not any(f["inBase"] for f in case["fields"])
 
 
 def build(case):
@@ -378,7 +388,7 @@ _Q_OTHER = {"lt": "other", "le": "other", "gt": "other", "ge": "other"}
 def _failed(cls_err, field_errs):
     return {"clsErr": cls_err, "fieldErrs": field_errs, "built": False,
             "status": {o: "dflt" for o in OPS}, "direct": dict(_Q_OTHER), "trace": {o: [] for o in OPS},
-            "ops": dict(_Q_OTHER), "rops": dict(_Q_OTHER)}
+            "ops": dict(_Q_OTHER), "rops": dict(_Q_OTHER), "residue": []}
 
 
 def _status(C, Base, op):
@@ -402,6 +412,64 @@ def observe(case):
         del LOG[:]
 
 
+VIEWS = ("ek", "ok", "ck")
+
+
+def _retarget(v, partner):
+    """one-directional partner links of a value (and its keyed forms) used only during the warm-up phase"""
+    v.partner = partner
+    for view in VIEWS:
+        getattr(v, view).partner = getattr(partner, view)
+
+
+def _warm_up(x, y):
+    """earlier uses of the instances: every operator both ways and a sort; results are discarded"""
+    for op in OPS:
+        for thunk in (lambda: PYOP[op](x, y), lambda: PYOP[op](y, x)):
+            try:
+                thunk()
+            except BaseException:  # noqa: BLE001
+                pass
+    try:
+        sorted([x, y])
+    except BaseException:  # noqa: BLE001
+        pass
+    del LOG[:]
+
+
+def _field_names(inst):
+    try:
+        return [a.name for a in attr.fields(type(inst))]
+    except BaseException:  # noqa: BLE001
+        return None
+
+
+def _transform(inst, kind, cur):
+    """bring an already-compared instance to the current values: rebinding behind its back, or through
+    assoc / evolve / copy (the result replaces the instance)"""
+    names = _field_names(inst)
+    changes = {n: cur[n] for n in names}
+    if kind == "rebind":
+        for n, v in changes.items():
+            object.__setattr__(inst, n, v)
+        return inst
+    # copying some mixed slotted/dict hierarchies fails on the pinned tree for reasons that belong to
+    # C10 (known findings K3/K4 there): the history then degrades to rebinding on the instance itself
+    try:
+        if kind == "assoc":
+            with warnings.catch_warnings():
+                warnings.simplefilter("ignore")
+                return attr.assoc(inst, **changes)
+        if kind == "evolve":
+            return attr.evolve(inst, **changes)
+        twin = copy.copy(inst)
+    except BaseException:  # noqa: BLE001
+        twin = inst
+    for n, v in changes.items():
+        object.__setattr__(twin, n, v)
+    return twin
+
+
 def _observe(case):
     b = build(case)
     if b["classes"] is None:
@@ -409,22 +477,69 @@ def _observe(case):
     Base, C, D, F = b["classes"]
     cfg = case.get("cfg", {})
     fs = case["fields"]
+    rhs = case["rhs"]
+    hist = case.get("hist")
     xv, yv = {}, {}
     for f in fs:
         xv[f["name"]], yv[f["name"]] = _mk_values(f)
-    x = C(**xv)
-    rhs = case["rhs"]
-    if rhs == "same":
-        y = C(**yv)
-    elif rhs == "identical":
-        y = x
-    elif rhs == "sub":
-        y = D(**yv)
-    elif rhs == "super":
-        y = Base(**{f["name"]: yv[f["name"]] for f in fs if f["inBase"]})
-    else:
-        fk = cfg.get("foreign_kind", "twin")
-        y = F(**yv) if fk == "twin" else object() if fk == "object" else 5 if fk == "int" else None
+    fk = cfg.get("foreign_kind", "twin")
+    y_is_attrs = rhs != "foreign" or fk == "twin"
+    # ---- which sides have a history, and their earlier values
+    hx = hy = False
+    xb, yb = dict(xv), dict(yv)
+    saved = []
+    if hist:
+        who = "x" if rhs == "identical" else hist["who"]
+        hx = who in ("x", "both")
+        hy = who in ("y", "both") and y_is_attrs
+        for f, bf in zip(fs, hist["before"]):
+            n = f["name"]
+            Xb, Yb = _mk_values(dict(f, raw=bf["raw"], ek=bf["ek"], ok=bf["ok"]))
+            if not (hx and hy):
+                # the unchanged side keeps its current values: the earlier values answer to those
+                if hx:
+                    _retarget(Xb, yv[n])
+                if hy:
+                    _retarget(Yb, xv[n])
+            if hist["kind"] == "rekey":
+                # same raw objects throughout; only what the key functions return for them changes
+                for side, val, bef in ((hx, xv[n], Xb), (hy, yv[n], Yb)):
+                    if side:
+                        saved.append((val, val.ek, val.ok, val.ck))
+                        val.ek, val.ok, val.ck = bef.ek, bef.ok, bef.ck
+            else:
+                if hx:
+                    xb[n] = Xb
+                if hy:
+                    yb[n] = Yb
+
+    def make(vals):
+        x = C(**vals[0])
+        if rhs == "same":
+            y = C(**vals[1])
+        elif rhs == "identical":
+            y = x
+        elif rhs == "sub":
+            y = D(**vals[1])
+        elif rhs == "super":
+            y = Base(**{f["name"]: vals[1][f["name"]] for f in fs if f["inBase"]})
+        else:
+            y = F(**vals[1]) if fk == "twin" else object() if fk == "object" else 5 if fk == "int" else None
+        return x, y
+
+    x, y = make((xb, yb))
+    if hist:
+        _warm_up(x, y)
+        if hist["kind"] == "rekey":
+            for val, ek, ok, ck in saved:
+                val.ek, val.ok, val.ck = ek, ok, ck
+        else:
+            if hx:
+                x = _transform(x, hist["kind"], xv)
+                if rhs == "identical":
+                    y = x
+            if hy and rhs != "identical":
+                y = _transform(y, hist["kind"], yv)
     obs = {"clsErr": "ok", "fieldErrs": [], "built": True,
            "status": {op: _status(C, Base, op) for op in OPS},
            "direct": {}, "trace": {}, "ops": {}, "rops": {}}
@@ -435,6 +550,13 @@ def _observe(case):
         obs["trace"][op] = list(LOG)
         obs["ops"][op] = call(lambda: PYOP[op](x, y))
         obs["rops"][op] = call(lambda: PYOP[op](y, x))
+    # ---- comparing leaves nothing behind on the instances
+    residue = set()
+    for inst in (x, y):
+        names = _field_names(inst)
+        if names is not None:
+            residue.update(k for k in getattr(inst, "__dict__", {}) if k not in names)
+    obs["residue"] = sorted(residue)
     return obs
 
 
@@ -473,6 +595,10 @@ def dist(case, obs):
         "n_inherited": sum(1 for f in case["fields"] if f["inBase"]),
         "rhs": case["rhs"],
         "block": case.get("block"),
+        "hist": (case.get("hist") or {}).get("kind"),
+        "hist_who": (case.get("hist") or {}).get("who"),
+        "frozen": bool(cfg.get("frozen") or cfg.get("frozen_base")),
+        "residue": len(o.get("residue", [])),
         "slots": cfg.get("slots"),
         "clsErr": o.get("clsErr"),
         "field_errs": len(o.get("fieldErrs", [])),
@@ -598,11 +724,13 @@ def _rand_cfg(rng):
         "alias": rng.choice([0, 0, 0, 1, 2, 3]),
         "annot": rng.random() < 0.2,
         "reuse": rng.random() < 0.2,
+        "frozen_base": rng.random() < 0.1,
     }
 
 
 DEFAULT_CFG = {"slots": None, "base_slots": None, "frozen": False, "base_api": "attr.s", "sub_api": "attr.s",
-               "maker": "attrib", "foreign_kind": "twin", "nobase": False, "alias": 0, "annot": False, "reuse": False}
+               "maker": "attrib", "foreign_kind": "twin", "nobase": False, "alias": 0, "annot": False, "reuse": False,
+               "frozen_base": False}
 
 # class-level argument sets under which ordering is generated, per api (used by the value-level blocks)
 GEN_CLS = [
@@ -620,11 +748,22 @@ def _case(rng, fields, rhs="same", cls=None, block=None, **over):
          "baseOrdered": False, "subOrdered": False, "fields": fields, "rhs": rhs, "cfg": _rand_cfg(rng),
          "block": block}
     c.update(over)
+    c.setdefault("hist", None)
     if fields and rng.random() < 0.5:
         # field names in another order than the alphabet (the order tuple follows definition order, not names)
         perm = rng.sample(NAMES, len(fields))
         c["fields"] = [dict(f, name=perm[i]) for i, f in enumerate(c["fields"])]
     return c
+
+
+HIST_KINDS = ["rekey", "rebind", "assoc", "evolve", "copy"]
+
+
+def _rand_hist(rng, fields, kind=None, who=None, eq_bias=0.5):
+    """an earlier life of the operands: other values (scripts) before, brought to the case's values by `kind`"""
+    return {"kind": kind or rng.choice(HIST_KINDS), "who": who or rng.choice(["x", "y", "both"]),
+            "before": [{"raw": _rand_pair(rng, eq_bias, same_p=0.05), "ek": _rand_pair(rng, eq_bias, same_p=0.05),
+                        "ok": _rand_pair(rng, eq_bias, same_p=0.05)} for _ in fields]}
 
 
 def _rand_rhs(rng):
@@ -760,7 +899,7 @@ def _gen_operands(tier, rng):
 
 
 def _gen_random(tier, rng):
-    n = 6000 if tier == "quick" else 600000
+    n = 5000 if tier == "quick" else 600000
     for _ in range(n):
         malformed = rng.random() < 0.12
         k = rng.choice([1, 2, 3, 3, 4, 5])
@@ -772,10 +911,41 @@ def _gen_random(tier, rng):
             cls = (rng.choice(APIS), rng.choice(ARG4), rng.choice(ARG4), rng.choice(ARG4))
             if not malformed and cls[0] == "define":
                 cls = (cls[0], "unset", cls[2], cls[3])
-        yield _case(rng, fields, rhs=_rand_rhs(rng), cls=cls, block="random",
-                    autoDetect=rng.choice(["unset", "unset", "t", "f"]),
-                    own=list(rng.choice(OWN16)) if rng.random() < 0.25 else [],
-                    baseOrdered=rng.random() < 0.3, subOrdered=rng.random() < 0.4)
+        c = _case(rng, fields, rhs=_rand_rhs(rng), cls=cls, block="random",
+                  autoDetect=rng.choice(["unset", "unset", "t", "f"]),
+                  own=list(rng.choice(OWN16)) if rng.random() < 0.25 else [],
+                  baseOrdered=rng.random() < 0.3, subOrdered=rng.random() < 0.4)
+        if rng.random() < 0.3:
+            c["hist"] = _rand_hist(rng, c["fields"], eq_bias=bias)
+            if rng.random() < 0.5:
+                c["cfg"].update(frozen=True, slots=False)
+        yield c
+
+
+def _gen_history(tier, rng):
+    """histories: the instances have been compared/sorted before with other values; the frozen, dict-based,
+    key-function corner (where a cache of the order tuple would be tempting) is visited systematically"""
+    reps = 1 if tier == "quick" else 12
+    shapes = [{}, {"order": "key"}, {"eq": "key"}, {"cmp": "key"}, {"eq": "key", "order": "key"}, {"inBase": True, "order": "key"}]
+    frozen_modes = [{"frozen": True, "slots": False}, {"frozen": False, "frozen_base": True, "slots": False, "base_slots": False},
+                    {"frozen": True, "slots": None}, {"frozen": True, "slots": True}, {"frozen": False, "slots": False}]
+    for kind in HIST_KINDS:
+        for who in ("x", "y", "both"):
+            for si, shape in enumerate(shapes):
+                for fm in frozen_modes:
+                    for _ in range(reps):
+                        k = rng.choice([1, 1, 2, 3])
+                        bias = rng.choice([0.2, 0.5])
+                        fields = [_plain_field(rng, NAMES[i], eq_bias=bias, **(shape if i == 0 or rng.random() < 0.5 else {}))
+                                  for i in range(k)]
+                        rhs = rng.choice(["same", "same", "same", "same", "identical", "sub", "super"])
+                        c = _case(rng, fields, rhs=rhs, block="history", baseOrdered=rng.random() < 0.3,
+                                  subOrdered=rng.random() < 0.4)
+                        c["cfg"].update(fm)
+                        if c["api"] == "define" and fm.get("frozen_base"):
+                            c["cfg"]["base_api"] = rng.choice(["attr.s", "define"])
+                        c["hist"] = _rand_hist(rng, c["fields"], kind, who, eq_bias=bias)
+                        yield c
 
 
 def gen_cases(tier, rng):
@@ -783,16 +953,33 @@ def gen_cases(tier, rng):
     yield from _gen_field_table(tier, rng)
     yield from _gen_positions(tier, rng)
     yield from _gen_operands(tier, rng)
+    yield from _gen_history(tier, rng)
     yield from _gen_concrete(tier, rng)
     yield from _gen_random(tier, rng)
 
 
 # ------------------------------------------------------------------------------------------ shrinking / search
 
+def _drop_field(case, i):
+    fs = case["fields"]
+    h = case.get("hist")
+    if h:
+        h = dict(h, before=h["before"][:i] + h["before"][i + 1:])
+    return dict(case, fields=fs[:i] + fs[i + 1:], hist=h)
+
+
 def shrink(case):
     fs = case["fields"]
     for i in range(len(fs)):
-        yield dict(case, fields=fs[:i] + fs[i + 1:])
+        yield _drop_field(case, i)
+    h = case.get("hist")
+    if h:
+        yield dict(case, hist=None)
+        for who in ("x", "y"):
+            if h["who"] != who:
+                yield dict(case, hist=dict(h, who=who))
+        if h["kind"] != "rebind":
+            yield dict(case, hist=dict(h, kind="rebind"))
     for k, v in (("cmp", "unset"), ("eq", "unset"), ("order", "unset"), ("autoDetect", "unset"), ("own", []),
                  ("baseOrdered", False), ("subOrdered", False), ("rhs", "same"), ("api", "attrS")):
         if case[k] != v:
@@ -828,6 +1015,9 @@ def neighbours(case, rng):
         yield dict(case, baseOrdered=b)
         yield dict(case, subOrdered=b)
     fs = case["fields"]
+    for kind in HIST_KINDS:
+        for who in ("x", "y", "both"):
+            yield dict(case, hist=_rand_hist(rng, fs, kind, who), rhs="same")
     for i, f in enumerate(fs):
         for _ in range(4):
             g = dict(f, raw=_rand_pair(rng), ek=_rand_pair(rng), ok=_rand_pair(rng), nat=None)
@@ -855,6 +1045,8 @@ LEVEL_TEXT = (
     "Observed, not proved: that /repo behaves like the model -- differential correspondence over class-level table (exhaustive), "
     "field-level table (exhaustive), tuple position statuses for <=2 (quick) / <=3 (thorough) fields (exhaustive), {0,1,2}^k all "
     "ordered pairs with key functions, subset partial order, NaN, operand kinds x method provenance, random fill with malformed "
-    "stream, background variation (slots, frozen, aliases, annotated fields, decorator reuse). CPython's tuple comparison and "
+    "stream, background variation (slots, frozen, aliases, annotated fields, decorator reuse), and histories (instances compared "
+    "before with other values, then key results / fields changed behind them or via assoc/evolve/copy; nothing may be left on the "
+    "instances). CPython's tuple comparison and "
     "rich-comparison dispatch are modelled as small functions and observed, not proved; values' reflected comparisons are assumed "
     "to agree (y-side scripted values answer with the mirror script). Exception classes (auto_exc) and redefined fields are not varied.")
